@@ -456,6 +456,50 @@ func ruleFromChannel() check.Rule {
 				c.Violation(key+"/receive", sc.Lit.Pos(), "FromChannel does not (use the two-value receive=%v, complete and return when the channel is closed=%v, forward the received value=%v)", twoValue, completesOnClose, forwards)
 			}
 			c.Inc("from_channel", 1)
+			// every receive from the caller's channel is of that form: the channel may have other consumers, so a count
+			// taken from len(in) promises nothing; a plain receive outside the select blocks without watching the
+			// teardown, and its one-value form turns a closed channel into zero values that were never sent
+			nrecv, bad := 0, 0
+			var stack []ast.Node
+			ast.Inspect(sc.Lit.Body, func(n ast.Node) bool {
+				if n == nil {
+					stack = stack[:len(stack)-1]
+					return true
+				}
+				stack = append(stack, n)
+				if rs, ok := n.(*ast.RangeStmt); ok {
+					if id, _ := rootIdent(rs.X); id != nil && inParam != nil && objOf(info, id) == types.Object(inParam) {
+						nrecv++
+						bad++
+						c.Violation(fmt.Sprintf("%s/receive#%d-guarded", key, nrecv), rs.Pos(), "FromChannel ranges over the caller's channel: the loop blocks in the receive without watching the channel its teardown closes, so it keeps reading (and swallows the next value) after unsubscription")
+					}
+				}
+				u, ok := n.(*ast.UnaryExpr)
+				if !ok || u.Op != token.ARROW {
+					return true
+				}
+				if id, _ := rootIdent(u.X); id == nil || inParam == nil || objOf(info, id) != types.Object(inParam) {
+					return true
+				}
+				nrecv++
+				// the receive is the right-hand side of the two-value communication of a select clause
+				guarded := false
+				if len(stack) >= 3 {
+					if as, ok := stack[len(stack)-2].(*ast.AssignStmt); ok && len(as.Lhs) == 2 && len(as.Rhs) == 1 && ast.Unparen(as.Rhs[0]) == ast.Expr(u) {
+						if cc, ok := stack[len(stack)-3].(*ast.CommClause); ok && cc.Comm == ast.Stmt(as) {
+							guarded = true
+						}
+					}
+				}
+				if guarded {
+					c.OK(fmt.Sprintf("%s/receive#%d-guarded", key, nrecv), u.Pos(), "two-value receive as the communication of a select clause")
+				} else {
+					bad++
+					c.Violation(fmt.Sprintf("%s/receive#%d-guarded", key, nrecv), u.Pos(), "this receive from the caller's channel is not the two-value communication of a select clause: outside the select it blocks without watching unsubscription, and in its one-value form a closed channel yields zero values that are emitted although they were never sent (the channel may have other consumers: what len() counted can be gone)")
+				}
+				return true
+			})
+			c.Inc("from_channel_receives", nrecv)
 		},
 	}
 }
